@@ -35,6 +35,17 @@ var c10Layouts = []string{time.RFC1123Z, "2006-01-02 15:04:05.000 -0700", "Jan _
 
 const c10Zone = "+05:30"
 
+// c10Name: the k-th user-given name; some contain characters a library might give a meaning to
+func c10Name(k int) string {
+	switch k % 7 {
+	case 3:
+		return fmt.Sprintf("net/n%d", k)
+	case 5:
+		return fmt.Sprintf("n%d.sub[0]", k)
+	}
+	return fmt.Sprintf("n%d", k)
+}
+
 func (p *C10) Gen(seed uint64, i int, tier string) *scen.Scenario {
 	r := scen.NewRng(scen.Mix(seed, scen.HashString("C10"), uint64(i)))
 	sc := &scen.Scenario{Property: "C10", Engine: "HIST+PROC", Seed: scen.Mix(seed, 110, uint64(i)) >> 12}
@@ -117,14 +128,14 @@ func (p *C10) Gen(seed uint64, i int, tier string) *scen.Scenario {
 				if len(l.names) > 0 {
 					op.Name, op.Named = scen.Pick(r, l.names), true
 				} else {
-					op.Name, op.Named = fmt.Sprintf("n%d", nextID), true
+					op.Name, op.Named = c10Name(nextID), true
 				}
 				if len(allNames) > 0 && r.Chance(1, 2) {
 					// a name in use somewhere else in the forest (another depth, the receiver itself, a sibling subtree)
 					op.Name, op.Named = scen.Pick(r, allNames), true
 				}
 			default:
-				op.Name, op.Named = fmt.Sprintf("n%d", nextID), true
+				op.Name, op.Named = c10Name(nextID), true
 			}
 			for q := r.Intn(3); q > 0; q-- {
 				op.Opts = append(op.Opts, setting(false))
@@ -206,8 +217,13 @@ func (p *C10) Gen(seed uint64, i int, tier string) *scen.Scenario {
 		case c < 95:
 			sc.Setup = append(sc.Setup, scen.Op{Op: "each", L: l.id})
 		default:
-			name := fmt.Sprintf("n%d", r.Range(1, nextID))
-			sc.Setup = append(sc.Setup, scen.Op{Op: "sublogger", L: l.id, Name: name})
+			if r.Bool() {
+				// by the name another logger of the history actually carries (whatever the library called it:
+				// children made by With... calls have names of the library's own making)
+				sc.Setup = append(sc.Setup, scen.Op{Op: "sublogger", L: l.id, R: scen.Pick(r, loggers).id})
+			} else {
+				sc.Setup = append(sc.Setup, scen.Op{Op: "sublogger", L: l.id, Name: c10Name(r.Range(1, nextID))})
+			}
 		}
 	}
 	// final lookups over the whole forest, then the probes
@@ -528,14 +544,25 @@ func (p *C10) Check(sc *scen.Scenario, run *orch.Run, env *orch.Env) []orch.Viol
 				continue
 			}
 			var r struct {
-				ID   int    `json:"id"`
-				Name string `json:"name"`
+				ID    int    `json:"id"`
+				Name  string `json:"name"`
+				Asked string `json:"asked"`
 			}
 			if !retInto(o, &r) {
 				continue
 			}
 			st := subtree(op.L)
 			exists := false
+			if op.Name == "" && op.R > 0 {
+				// asked by the actual name of logger op.R
+				if r.Asked == "" {
+					continue
+				}
+				op = &scen.Op{Op: op.Op, L: op.L, R: op.R, Name: r.Asked}
+				if _, in := st[op.R]; in {
+					exists = true
+				}
+			}
 			for id := range st {
 				if ms[id].nameKnown && ms[id].name == op.Name {
 					exists = true
